@@ -80,8 +80,9 @@ func (p *Parser) Parse(source string) (Node, error) {
 		tokenizer.ApplyWhitespaceControl()
 	}
 
-	// Return the tokenizer to the pool
-	ReleaseTokenizer(tokenizer)
+	// The token slice is the tokenizer's own buffer, so the tokenizer goes back to the
+	// pool only when parsing is finished
+	defer ReleaseTokenizer(tokenizer)
 
 	if err != nil {
 		return nil, fmt.Errorf("tokenization error: %w", err)
@@ -92,14 +93,10 @@ func (p *Parser) Parse(source string) (Node, error) {
 
 	// Parse tokens into nodes
 	nodes, err := p.parseOuterTemplate()
+	p.tokens = nil
 	if err != nil {
-		// Clean up token slice on error
-		ReleaseTokenSlice(p.tokens)
 		return nil, fmt.Errorf("parsing error: %w", err)
 	}
-
-	// Clean up token slice after successful parsing
-	ReleaseTokenSlice(p.tokens)
 
 	return NewRootNode(nodes, 1), nil
 }
